@@ -348,3 +348,65 @@ Proof.
   exists [(1%positive, 2%positive); (2%positive, 1%positive)], (fun r => Zpos r), 2%positive, 1%positive.
   split; [right; left; reflexivity | vm_compute; discriminate].
 Qed.
+
+(* ---- parameter extensions are prepended: no jump of the body can reach them again ---------------- *)
+
+Lemma find_label_from : forall l body n,
+  find_label l body n = option_map (fun p => (n + p)%nat) (find_label l body 0%nat).
+Proof.
+  intros l body. induction body as [|i r IH]; intros n; [reflexivity|].
+  cbn [find_label]. destruct (is_label i l).
+  - cbn. f_equal. lia.
+  - rewrite (IH (S n)), (IH 1%nat). destruct (find_label l r 0%nat); cbn; [f_equal; lia | reflexivity].
+Qed.
+
+Lemma find_label_prepend : forall exts body l,
+  Forall not_a_label exts ->
+  find_label l (prepend_exts exts body) 0%nat
+  = option_map (fun p => (length exts + p)%nat) (find_label l body 0%nat).
+Proof.
+  unfold prepend_exts. induction exts as [|e r IH]; intros body l H.
+  - cbn. destruct (find_label l body 0%nat); reflexivity.
+  - inversion H as [|? ? He Hr]; subst. cbn [app find_label length]. rewrite (He l).
+    rewrite find_label_from, (IH body l Hr).
+    destruct (find_label l body 0%nat); cbn; [f_equal; lia | reflexivity].
+Qed.
+
+(* in Sem: a jump in the function with the extensions in front lands where the same jump of the
+   original body lands, shifted by the number of extensions - in particular behind all of them *)
+Lemma goto_prepend_exts : forall exts f l,
+  Forall not_a_label exts ->
+  goto (MkFrame (prepend_exts exts (fr_body f)) (fr_res f) (fr_pc f) (fr_regs f) (fr_blocks f) (fr_dsts f)) l
+  = match goto f l with
+    | Ok f' => Ok (MkFrame (prepend_exts exts (fr_body f)) (fr_res f) (length exts + fr_pc f')
+                           (fr_regs f) (fr_blocks f) (fr_dsts f))
+    | Er e => Er e
+    end.
+Proof.
+  intros exts f l H. unfold goto. cbn [fr_body].
+  rewrite (find_label_prepend exts (fr_body f) l H).
+  destruct (find_label l (fr_body f) 0%nat); reflexivity.
+Qed.
+
+Lemma prepend_exts_targets_behind : forall exts body l pc,
+  Forall not_a_label exts ->
+  find_label l (prepend_exts exts body) 0%nat = Some pc ->
+  (length exts <= pc)%nat /\ find_label l body 0%nat = Some (pc - length exts)%nat.
+Proof.
+  intros exts body l pc H E. rewrite (find_label_prepend exts body l H) in E.
+  destruct (find_label l body 0%nat) as [p|]; cbn in E; [|discriminate].
+  inversion E; subst. split; [lia | f_equal; lia].
+Qed.
+
+(* putting the extension behind a leading label instead: the label stays the target (pc 0) and the
+   extension is the very next insn - every jump back to the label runs it again *)
+Lemma ext_after_head_label_refuted :
+  exists e body l pc, not_a_label e /\ find_label l body 0%nat = Some pc /\
+    find_label l (insert_after_head e body) 0%nat = Some pc /\
+    nth_error (insert_after_head e body) (S pc) = Some e.
+Proof.
+  exists (I UEXT8 [Oreg 1%positive; Oreg 1%positive]),
+         [I LABEL [Olabel 1%positive]; I ADD [Oreg 1%positive; Oreg 1%positive; Oint 100];
+          I JMP [Olabel 1%positive]], 1%positive, 0%nat.
+  split; [intro l; reflexivity | repeat split; reflexivity].
+Qed.
